@@ -1000,7 +1000,12 @@ func (r *runner) finish(start time.Time) int {
 	return exit
 }
 
-func selftest(args []string) int {
-	fmt.Println("selftest: see ./check selftest (determinism) - implemented in selftest.go")
-	return selftestMain(args)
+func selftest(args []string) int { return selftestMain(args) }
+
+func readJSON(path string, v any) bool {
+	b, err := os.ReadFile(path)
+	if err != nil {
+		return false
+	}
+	return json.Unmarshal(b, v) == nil
 }
